@@ -630,6 +630,7 @@ def check_case(ctx: Ctx, c: dict):
         return check_terminal_switch(ctx, c, "C08")
     d = ctx.driver("drv_e2e")
     td = tempfile.mkdtemp(prefix="vc08")
+    _tmp_before = set(Path(tempfile.gettempdir()).glob("tty-graphics-protocol-*"))
     clock = Clock()
     clock.install()
     U.scrub_env()
@@ -727,6 +728,9 @@ def check_case(ctx: Ctx, c: dict):
                         img.save(e["path"], format="PNG" if e["kind"] == "png" else "JPEG")
                         st = os.stat(e["path"])
                         os.utime(e["path"], (st.st_atime, st.st_mtime + req.get("dt", 10)))
+                    continue
+                if op == "setmax":     # the application changes the command size limit of the terminal object
+                    T.term.max_command_size = req["value"]
                     continue
                 if op == "touchmem":   # an in-memory image edited IN PLACE (same object, new pixels)
                     e = pool[req["img"] % len(pool)]
@@ -839,9 +843,9 @@ def check_case(ctx: Ctx, c: dict):
         os.chdir(_ORIG_CWD)
         clock.uninstall()
         shutil.rmtree(td, ignore_errors=True)
-        for f in Path(tempfile.gettempdir()).glob("tty-graphics-protocol-*"):
+        for f in set(Path(tempfile.gettempdir()).glob("tty-graphics-protocol-*")) - _tmp_before:
             try:
-                f.unlink()
+                f.unlink()      # temporary files the library made during THIS case and no terminal consumed
             except OSError:
                 pass
 
@@ -1015,6 +1019,18 @@ def cases(ctx: Ctx):
                            pool=[["png", 8, 8, rng.randrange(1 << 30)] for _ in range(4)])
     from . import termid
     yield from termid.cases(rng, 40 if ctx.quick else 400)
+    # chunk-size sweep: the same image sent inline under consecutive command-size limits, so that payload lengths that are
+    # exact multiples of the chunk size (and one more / one less) all occur, whatever the header length is
+    for layers in ((0, 1) if ctx.quick else (0, 1, 2)):
+        base = rng.randrange(96, 110)
+        reqs = []
+        for mcs in range(base + 60 * layers, base + 60 * layers + (150 if ctx.quick else 400)):
+            reqs.append(dict(op="setmax", t=0, value=mcs))
+            reqs.append(dict(op="upload_and_display", t=0, img=0, cols=2, rows=1, force_upload=True))
+        yield dict(k="scenario", terminals=1, ssh=False,
+                   config=dict(id_space="24bit", id_subspace="0:256", upload_method="direct", max_command_size=4096,
+                               **({"num_tmux_layers": layers} if layers else {})),
+                   pool=[["mem-rgb", 10, 12, rng.randrange(1 << 30)]], requests=reqs)
     n = 600 if ctx.quick else 6000
     for i in range(n):
         nterm = rng.choice([1, 1, 2, 3])
